@@ -188,9 +188,14 @@ impl<'i> ExecutableInstruction<'i> for Xor<'i> {
 
 // ---------------------------------------------------------------- C18.V3
 // seq: the second instruction runs iff the first returned Ok and left the subgraph complete
-pub open spec fn seq_spec(first: int, second: int, log0: Log, log1: Log, r: ExecutionResult<()>) -> bool {
+pub open spec fn seq_spec(first: int, second: int, log0: Log, log1: Log, r: ExecutionResult<()>, err1: ErrOps, peers1: vstd::seq::Seq<String>) -> bool {
     let n = log0.len() as int;
     &&& log1.len() > n
+    // a seq itself touches neither the `:error:` descriptor nor the list of next peers: the second instruction starts with what the
+    // first left behind and the seq ends with what its last instruction left behind (C18, C19)
+    &&& err1 == log1[log1.len() - 1].err
+    &&& peers1 == log1[log1.len() - 1].peers
+    &&& (log1.len() == n + 2 ==> log1[n + 1].err_pre == log1[n].err && log1[n + 1].peers_pre == log1[n].peers)
     &&& log1.subrange(0, n) =~= log0
     &&& log1[n].id == first
     &&& if log1[n].res is Ok && log1[n].complete {
@@ -206,16 +211,16 @@ pub open spec fn seq_spec(first: int, second: int, log0: Log, log1: Log, r: Exec
 impl<'i> Seq<'i> {
 //@ lift air/src/execution_step/instructions/seq.rs :: impl <'i> super::ExecutableInstruction<'i> for Seq<'i> :: fn execute
 //@ name Seq::execute
-//@ props C18
+//@ props C18 C19
 //@ ret r
 //@ spec
-        ensures seq_spec(self.0.id as int, self.1.id as int, old(exec_ctx).log@, final(exec_ctx).log@, r)
+        ensures seq_spec(self.0.id as int, self.1.id as int, old(exec_ctx).log@, final(exec_ctx).log@, r, final(exec_ctx).error_descriptor.ops@, final(exec_ctx).next_peer_pks@)
 //@ end
 }
 
 impl<'i> ExecutableInstruction<'i> for Seq<'i> {
     fn execute(&self, exec_ctx: &mut ExecutionCtx<'i>, trace_ctx: &mut TraceHandler) -> (r: ExecutionResult<()>)
-        ensures seq_spec(self.0.id as int, self.1.id as int, old(exec_ctx).log@, final(exec_ctx).log@, r)
+        ensures seq_spec(self.0.id as int, self.1.id as int, old(exec_ctx).log@, final(exec_ctx).log@, r, final(exec_ctx).error_descriptor.ops@, final(exec_ctx).next_peer_pks@)
     { Seq::execute(self, exec_ctx, trace_ctx) }
 }
 
